@@ -50,7 +50,7 @@ Qed.
 
 (** ** the delegating call and the [EntraitT] bound are the ones the property describes *)
 Lemma delegation_call_c06 a ca s :
-  delegation_call a ca (s_name s) (map (fun n => [TId n]) (typed_names s)) = c06_call a ca s.
+  delegation_call a ca (plain_self_by_value s) (s_name s) (map (fun n => [TId n]) (typed_names s)) = c06_call a ca s.
 Proof.
   unfold delegation_call, c06_call.
   destruct (ta_impl_trait a) as [it|], (ta_delegate a) as [[|[|]|del]|], ca; reflexivity.
